@@ -451,6 +451,21 @@ pub async fn run_history(hi: usize, spec: &HSpec, seed: u64, thorough: bool, emi
             emit("H", "live-block-with-rebroadcast-transactions");
         }
     }
+    // durability: once add_block has returned for an accepted block (on the longest chain or stored as a side block), its
+    // file is among the completed storage operations — otherwise no restart can rebuild a chain that runs through it
+    for (i, r) in h.recs.iter().enumerate() {
+        if r.cls != "added_lc" && r.cls != "added_side" {
+            continue;
+        }
+        let name = r.block.get_file_name();
+        let upto = h.jlen_after.get(i).copied().unwrap_or(h.journal.len());
+        let has = h.journal[..upto.min(h.journal.len())].iter().any(|o| matches!(o, DiskOp::Write(n, _) if n.ends_with(&name)));
+        emit("H", if has { "durability:accepted-block-written" } else { "durability:accepted-block-NOT-written" });
+        if !has {
+            emit("M", &format!("C12/accepted-block-never-written/{}	add_block returned {} for block {} ({}) but no write of its file is among the {} storage operations completed by then	{}",
+                r.cls, r.cls, r.block.id, short(&r.block.hash), upto, serde_json::json!({"history": hi, "seed": seed, "spec": show_spec(spec), "rec": i})));
+        }
+    }
     // the model follows histories without purge only (Model/Chain has no 2·gp purge / rebroadcast)
     let modelled = !h.has_removes() && h.recs.iter().map(|r| r.block.id).max().unwrap_or(0) < gp;
     let mut proj = Proj { ids: Ids::default() };
